@@ -58,6 +58,7 @@ DEVIATIONS = {
     "ChargeColumnDropped": ("DevCharge", ("ChargesPreserved",)),
     "LabelTruncated": ("DevLabel", ("LabelsPreserved",)),
     "ConformerOrderLost": ("DevOrder", ("CoordsPreserved", "ChargesPreserved")),
+    "NegativeZeroChargeToken": ("DevNegZero", ("TextFixedPoint",)),         # as found in the pinned tree (`c or 0.0`)
     # a writer that remembers tokens per bond / atom object re-emits them after the object was edited
     "StaleBondTokenCache": ("DevStaleBond", ("BondsPreserved",)),
     "StaleAtomTokenCache": ("DevStaleAtom", ("AtomsPreserved",)),
@@ -220,10 +221,32 @@ def file_cases(tier):
     return cases, skipped
 
 
+NEGZERO_CHARGES = (-0.0, -0.0003, 0.0003, -0.00049999, 0.00049999, -0.0005001, 0.0)
+
+
+def negzero_cases():
+    """Harness-built objects whose partial charges round to zero from below / above, and -0.0 itself (a float the integer
+    charge pool of the spec cannot hold).  Their traces are validated like every other trace."""
+    return [{"src": "negzero", "as": k} for k in ("Mol", "Ens")]
+
+
 def realise(case):
     """case -> real molli object."""
     if case["src"] == "rec":
         return A.build(case["rec"], case["obj"])
+    if case["src"] == "negzero":
+        import numpy as np
+        import molli as ml
+        n = len(NEGZERO_CHARGES)
+        m = ml.Molecule([ml.Atom("C", label=f"C{i + 1}") for i in range(n)], name="charges near zero")
+        m.coords = np.array([[float(i), -0.0, -4e-8] for i in range(n)])
+        m.atomic_charges = list(NEGZERO_CHARGES)
+        if case["as"] == "Mol":
+            return m
+        e = ml.ConformerEnsemble(m, n_conformers=2)
+        e.coords = np.array([m.coords, m.coords + 1.0])
+        e.atomic_charges = np.array([list(NEGZERO_CHARGES), list(NEGZERO_CHARGES)[::-1]])
+        return e
     import molli as ml
     p = Path(ml.__file__).resolve().parent / "files" / case["file"]
     cls = {"Mol": ml.Molecule, "Struct": ml.Structure, "Ens": ml.ConformerEnsemble}[case["as"]]
@@ -365,7 +388,7 @@ def selftest_cases():
     rec = {"kind": "Mol", "name": "self test", "atoms": atoms, "bonds": bonds, "nconf": 1}
     return [{"src": "rec", "rec": rec, "obj": {"kind": "Mol", "blocks": [blk(x1, [12345, -100060, 0])]}},
             {"src": "rec", "rec": {**rec, "kind": "Ens", "nconf": 2},
-             "obj": {"kind": "Ens", "blocks": [blk(x1, [12345, -100060, 0]), blk(x2, [200000, 99949, -40])]}}]
+             "obj": {"kind": "Ens", "blocks": [blk(x1, [12345, -100060, 0]), blk(x2, [200000, 99949, 40])]}}]
 
 
 def binding_selftest(ev, rep):
@@ -410,7 +433,9 @@ def binding_selftest(ev, rep):
     mut(base_m, "read-raises", R1, lambda e, k: e[k].__setitem__("res", {"out": "raise", "blocks": []}))
     mut(base_m, "write-raises", ("write", 1), lambda e, k: e[k].__setitem__("res", {"out": "raise", "blocks": []}))
     mut(base_m, "text2-type-token", W2, lambda e, k: blk(e, k)["atoms"][1]["tok"].__setitem__("suf", "pl3"))
-    mut(base_m, "text2-charge", W2, lambda e, k: blk(e, k)["atoms"][0].__setitem__("q", blk(e, k)["atoms"][0]["q"] + 100))
+    mut(base_m, "text2-charge", W2, lambda e, k: blk(e, k)["atoms"][0]["q"].__setitem__("v", blk(e, k)["atoms"][0]["q"]["v"] + 100))
+    mut(base_m, "text2-negative-zero-charge", W2, lambda e, k: blk(e, k)["atoms"][2]["q"].__setitem__("nz", 1))
+    mut(base_m, "text2-negative-zero-coordinate", W2, lambda e, k: blk(e, k)["atoms"][0]["xyz"][2].__setitem__("nz", 1))
     mut(base_m, "read2-geometry", R2, lambda e, k: blk(e, k)["atoms"][1].__setitem__("g", "Unknown"))
     mut(base_m, "read-event-dropped", R1, lambda e, k: e.pop(k), shift=1)   # the history event that follows is a stutter
     # history independence: the same text read again after unrelated calls must give the same typed atoms
@@ -504,7 +529,7 @@ def run(tier, seed, replay_path):
         #      with history calls / re-reads interleaved
         cases = generate(ev, tier, seed)
         fcases, skipped = file_cases(tier)
-        cases += fcases
+        cases += fcases + negzero_cases()
         indexed = list(enumerate(cases))
         handles = [spawn({"job": "cases", "seed": seed * 100 + w, "items": indexed[w::WORKERS]}) for w in range(WORKERS)]
         # ---- B1: typing table of the real code in this process, every triple and every bond type, fresh atoms only
@@ -551,7 +576,7 @@ def run(tier, seed, replay_path):
     # ---- evidence
     nontrivial_rows = sum(1 for e in trows if e["tok"]["suf"] or e["tok"]["pre"] == "Du")
     distinct_tokens = len({(e["tok"]["pre"], e["tok"]["suf"]) for e in trows})
-    nontrivial_cases = sum(1 for c in cases if c["src"] == "file" or c["rec"]["atoms"])
+    nontrivial_cases = sum(1 for c in cases if c["src"] != "rec" or c["rec"]["atoms"])
     ev.count(evaluations=tcalls + scalls, distinct_nontrivial=nontrivial_rows + len(brows) + nontrivial_cases,
              traces=len(ttraces) + len(straces))
     ev.set(rule="evaluations = real molli calls (get/set_mol2_type, Bond.get/set_mol2_type, dumps_mol2, loads_mol2, "
@@ -599,7 +624,8 @@ def run(tier, seed, replay_path):
         "bond endpoints are compared as an unordered pair; an empty label and a bond type mol2 cannot express are free on "
         "read-back but must be stable in the second cycle",
         "the fixed point is taken over the tokens the property names (name, atom rows: label, x, y, z, type, charge; bond "
-        "rows: endpoints, type) with numbers compared as numbers: '-0.000' and '0.000' are the same charge",
+        "rows: endpoints, type); numbers are compared by value AND by the sign of a zero token: '-0.000' and '0.000' are "
+        "different texts (TextFixedPoint) but the same charge (ChargesPreserved)",
         "coordinates within 1e-6 A and charges within 1e-3 e of the object's values (both round-to-nearest and truncation "
         "to the written precision are accepted)",
         "trusted: TLC, the CommunityModules JSON reader, the harness's 40-line mol2 tokenizer and its float -> fixed-point "
